@@ -109,6 +109,8 @@ pub struct Profile {
     pub negative_max: bool,
     /// a share of explicit costs below zero (accepted by the API; only the Coster rule of C16 looks at them)
     pub negative_costs: bool,
+    /// share of cases (percent) built with the builder's own key builder, coster and validator
+    pub defaults_pct: u32,
     pub big_advances: bool,
     /// weight of E2 interposition ops (schedule mode only)
     pub interpose: u32,
@@ -139,6 +141,7 @@ impl Default for Profile {
             getmut_write: false,
             negative_max: false,
             negative_costs: false,
+            defaults_pct: 12,
             big_advances: true,
             interpose: 0,
             interpose_clear_only: false,
@@ -243,20 +246,31 @@ pub fn config_strategy(p: &Profile) -> BoxedStrategy<Config> {
                 Just(None).boxed()
             };
             let start = prop_oneof![Just(0i64), Just(1i64), Just(NS - 1), Just(500_000_000i64), 0i64..NS];
-            (layout_keys(p.layout, n), max_cost, tick, start).prop_map(move |(keys, max_cost, tick, start_ns)| Config {
-                flavour,
-                mode,
-                max_cost,
-                num_counters: nc,
-                buffer_size: bs,
-                buffer_items: bi,
-                ignore_internal_cost: ignore_internal,
-                metrics,
-                validator: val,
-                keys,
-                start_ns,
-                tick,
-                order: ((r / 1013) % 10) as u8,
+            let defaults = p.layout != Layout::Collide && (r / 31) % 100 < p.defaults_pct;
+            (layout_keys(p.layout, n), max_cost, tick, start).prop_map(move |(keys, max_cost, tick, start_ns)| {
+                let (keys, val) = if defaults {
+                    use stretto::KeyBuilder;
+                    let kb = stretto::DefaultKeyBuilder::<u64>::default();
+                    ((0..n as u64).map(|k| kb.build_key(&k)).collect(), Validator::Always)
+                } else {
+                    (keys, val)
+                };
+                Config {
+                    flavour,
+                    mode,
+                    max_cost,
+                    num_counters: nc,
+                    buffer_size: bs,
+                    buffer_items: bi,
+                    ignore_internal_cost: ignore_internal,
+                    metrics,
+                    validator: val,
+                    keys,
+                    start_ns,
+                    tick,
+                    order: ((r / 1013) % 10) as u8,
+                    defaults,
+                }
             })
         })
         .boxed()
